@@ -40,6 +40,11 @@ CLAIMED = {
              'all input samples symbolic, z3 (QF_LRA) certifies the code as a fixed matrix which must equal - at one phase shared by one-call, two-call and three-call framings - the exact matrix of insert L-1 zeros / '
              'filter with h*L/sum(h) / keep every M-th; output count len*L/M; frames not a multiple of M end in a throw; resample(): length p\'*ceil(len/q\'), p = q returns the same terms, impulse-response centroid within one output sample of i*q/p.',
              note='REAL arithmetic; phase searched in [-|h|-LM, |h|+LM]; alignment judged by the energy centroid of impulse responses away from the edges; pass-band accuracy of the default design not decided.'),
+ 'C10': dict(design='4/C10', text='Request histories are enumerated (all 6^3 quick / 6^5 thorough sequences over lengths {5,6,9,10,12,16} for the complex and the real cache, prefixes covering shorter ones, plus random '
+             'mixed fft/ifft/rfft/irfft histories of length 4..8), data symbolic: every result must be the same term as that single request in a fresh machine (bit-identical for every input); after every request '
+             'the hook-reported keys of both caches must number at most DSPLIB_FFT_CACHE_SIZE and be exactly the most recently used plans per a reference LRU run on the observed create_fft_plan/create_rfft_plan calls '
+             '(nested sub-plan requests included, completion order); plan objects taken before a history must return the same terms afterwards.',
+             note='History is enumerated, not symbolic; single modelled thread; cache size = build default (4). Needs the DSPLIB_VERIF hook (read-only key accessors).'),
 }
 ALL = [json.loads(l)['id'] for l in open(os.path.join(V, 'properties.jsonl'))]
 NA_REASON = {}
@@ -55,7 +60,7 @@ def main():
           for p in ALL if p not in CLAIMED]
     man = {'version': 1, 'setup_cmd': 'python3-vt -c "import z3; print(z3.get_version_string())" && clang++-14 --version | head -1',
            'hooks': {'guard': 'DSPLIB_VERIF', 'enable': 'checks compile /repo sources themselves with -DDSPLIB_VERIF (engine/build.py); the normal CMake build never defines it',
-                     'baseline_off_cmd': '/verif/tools/run_baseline.sh', 'source_commits': [], 'add_only': True},
+                     'baseline_off_cmd': '/verif/tools/run_baseline.sh', 'source_commits': ['853643f', 'af7be84'], 'add_only': True},
            'engines': [{'name': 'symir', 'path': 'engine/', 'serves_properties': sorted(CLAIMED), 'kind_free_text': 'own symbolic interpreter for clang-14 LLVM IR of the real sources + z3; native replay of counterexamples'}],
            'checks': checks, 'not_applicable': na,
            'notes': 'All checks rebuild IR and the native replay library from /repo\'s current working tree (cache keyed by source hash under /verif/.cache). Exit 0 = held; 1 = VIOLATION (replayed natively); 3 = inconclusive (engine could not decide an obligation; no VIOLATION line).'}
